@@ -40,10 +40,11 @@ Proof. exact @c01_members. Qed.
 Print Assumptions C01_members.
 
 (** every reachable part keeps its content type and its payload (re-serialised when its
-    type maps to an XML part class, the same bytes otherwise), provided no two parts
-    clash in the default table *)
+    type maps to an XML part class, the same bytes otherwise).  No side condition on
+    extensions is needed: the writer uses a Default only for an extension the default table
+    maps to a single content type ([in_table]) *)
 Theorem C01_payload_type : forall blob (E : env blob) (p : phys blob),
-  wf E p -> codec_ok E -> env_ok E -> no_default_clash E p ->
+  wf E p -> codec_ok E -> env_ok E ->
   exists k, load E p = Ok k /\
     forall q ct b, reachable E p q -> q <> root -> ct_in E p q = Ok ct -> lookup q p = Some b ->
       ct_in E (save E k) q = Ok ct /\
@@ -51,16 +52,10 @@ Theorem C01_payload_type : forall blob (E : env blob) (p : phys blob),
 Proof. exact @c01_payload_type. Qed.
 Print Assumptions C01_payload_type.
 
-(** without that side condition the statement is false on the current tables: two
-    .bin parts typed as PresentationML and SpreadsheetML printer settings; the first one
-    comes back typed as the second *)
-Theorem C01_payload_type_refuted :
-  exists (p : phys wblob) k q ct ct',
-    wf wenv p /\ codec_ok wenv /\ env_ok wenv /\ load wenv p = Ok k /\
-    reachable wenv p q /\ q <> root /\
-    ct_in wenv p q = Ok ct /\ ct_in wenv (save wenv k) q = Ok ct' /\ ct <> ct'.
-Proof. exact payload_type_refuted. Qed.
-Print Assumptions C01_payload_type_refuted.
+(** two parts can never compete for the Default of an extension *)
+Theorem C01_no_default_clash : forall blob (E : env blob) (p : phys blob), no_default_clash E p.
+Proof. exact @no_default_clash_always. Qed.
+Print Assumptions C01_no_default_clash.
 
 (** the package and every reachable part keep exactly their relationships: same id, type
     and mode, resolving to the same part or carrying the same external text *)
@@ -74,7 +69,7 @@ Print Assumptions C01_rels.
 
 (** opening and saving the output again reproduces the same members with the same bytes *)
 Theorem C01_idem : forall blob (E : env blob) (p : phys blob),
-  wf E p -> codec_ok E -> env_ok E -> no_default_clash E p ->
+  wf E p -> codec_ok E -> env_ok E ->
   exists k k2, load E p = Ok k /\ load E (save E k) = Ok k2 /\
                same_package (save E k2) (save E k).
 Proof. exact @c01_idem. Qed.
@@ -90,9 +85,6 @@ Proof. exact wenv_codec_ok. Qed.
 
 Example C01_ex_env_ok : env_ok wenv.
 Proof. exact wenv_env_ok. Qed.
-
-Example C01_ex_no_clash : no_default_clash wenv ex_deck.
-Proof. exact ex_deck_no_clash. Qed.
 
 (* its loaded parts in iter_parts order, and the members it is saved with *)
 Example C01_ex_parts :
@@ -110,6 +102,20 @@ Example C01_ex_saved_members :
   end.
 Proof. vm_compute. repeat split. Qed.
 
-(* the clash package of the refutation is well-formed but violates no_default_clash *)
-Example C01_ex_clash_wf : wfb wenv ex_clash = true /\ no_default_clashb wenv ex_clash = false.
-Proof. vm_compute. split; reflexivity. Qed.
+(* regression on the former counter-example (two .bin parts typed as PresentationML and
+   SpreadsheetML printer settings, which an earlier writer merged under one Default): the
+   package is well-formed, both parts keep their type, each through an Override, and no
+   Default is written for bin *)
+Example C01_ex_clash_wf : wfb wenv ex_clash = true.
+Proof. vm_compute. reflexivity. Qed.
+
+Example C01_ex_clash_regression :
+  match load wenv ex_clash with
+  | Ok k =>
+      content_types_item wenv (iter_parts k)
+      = (gen_init_defaults, [(n_a_bin, ct_pml_ps); (n_b_bin, ct_sml_ps)])
+      /\ ct_in wenv (save wenv k) n_a_bin = Ok ct_pml_ps
+      /\ ct_in wenv (save wenv k) n_b_bin = Ok ct_sml_ps
+  | Err _ => False
+  end.
+Proof. exact ex_clash_regression. Qed.
